@@ -28,6 +28,17 @@ CHECKS = {
         design_ref="6.12",
         note=LEVEL_NOTE_COMMON + " Thread-count independence of the low-memory prange loop rests on the generic ownership theorem (proofs/Par.v) plus correspondence runs, not on a refinement proof of that kernel.",
     ),
+    "C01": dict(
+        technique="Coq proof (graph invariant by induction over all push sequences of every kernel; read-out theorem via heap sort) over transcribed kernels; tie = exact differential execution incl. whole builds replayed from recorded nn_descent arguments; spec oracle on neighbor_graph vs float64 references",
+        text=("Theorems in coq/props/C01.v: the invariant 'n x k rows, each a max-heap of pairwise distinct in-range row numbers carrying exactly "
+              "dm(row,entry) < inf, padded with (-1,+inf)' holds of make_heap and is preserved by init_rp_tree, init_random, update generation "
+              "and application in both memory modes for every input, generator state, thread count; sorting a row yields exactly the shape "
+              "the property states (ascending, distinct, true distances, sentinels as a suffix), for all n,k. The model is compared "
+              "bit-for-bit with the compiled kernels and with complete NNDescent constructions (dense and CSR) on integer-valued data; for all "
+              "other metrics/data kinds the read-out specification is evaluated on neighbor_graph against independent float64 references."),
+        design_ref="6.1",
+        note=LEVEL_NOTE_COMMON + " Not proved: float32 rounding of metric kernels (tolerance check), the in-range property of candidate arrays (hypothesis of the round theorem, validated by correspondence), the loop composition of nn_descent as a single theorem.",
+    ),
 }
 
 REASON_PENDING = "check not built yet in this round (design in DESIGN.md section 6; no claim is made until the check exists)"
